@@ -31,6 +31,12 @@ CLAIMED = {
  "C09": ("Contract proofs: calculateMaxCreation equals min(maxParallelPodCreation, (1 + t div interval) * increase) whenever the interval is positive and never exceeds maxParallelPodCreation; ManageDeployment's create list is bounded by that value and its delete list by maxUnavailable, for all inputs.",
          "Not covered yet: the spacing of two acting syncs by reconcileFrequency (replica-set Reconcile gate). Percent values are resolved by the assumed GetValueFromIntOrPercent contract (exact for integers, uninterpreted for percent strings). " + TECH_NOTE,
          "DESIGN.md 5 C09"),
+ "C11": ("Failure-path and statelessness contracts: both reconcilers (ExtendedDaemonSet and replica-set Reconcile) and every helper under contract are proved to leave all memory reachable by their caller unchanged ('modifies nothing' frame obligations), so a restarted controller with empty memory is indistinguishable from the running one; every postcondition over the ghost API call log is proved with the error result of each client call unconstrained and with the written object's metadata havocked whether or not an error is returned (call rejected and applied-but-answer-lost are both covered). Clauses of the shape 'for every new log entry k ...' are prefix-closed, so they hold at every crash point between two calls: namespaced lists, deletions only of listed replica sets that are neither current nor up to date, a replica set created only right after the list and only when no listed one matches, status write after all pod operations, spec write only directly after the status write.",
+         "Not decided by contracts: convergence of the following failure-free reconciles to the same final state (a liveness / multi-reconcile statement, see C02) and pairs of faults across reconciles. The replica-set reconciler's flowcontrol.Backoff (delay before a failed pod is deleted again) is in-memory state outside the modelled heap: it affects timing only and is listed as an assumption. createPods/deletePods goroutine fan-out is a trusted skeleton (C17). " + TECH_NOTE,
+         "DESIGN.md 5 C11"),
+ "C13": ("Contract proofs along the template-hash chain: IsReplicaSetUpToDate holds exactly when the recorded hash annotation equals the hash of spec.template; newReplicaSetFromInstance returns a replica set in the ExtendedDaemonSet's namespace, labelled with its name (a genuine defect here was demonstrated and fixed), whose recorded hash, templateGeneration and template are those of spec.template; createNewReplicaSet issues at most one call, a Create of exactly that object (snapshot of the object sent); the ExtendedDaemonSet Reconcile is proved, with a loop invariant over the listed replica sets, to create one only directly after the list and only if no listed replica set matches spec.template; cleanupReplicaSet never deletes the current or the up-to-date replica set and only ones reporting zero pods.",
+         "The hash is an uninterpreted function of the template object (json+md5 are not modelled), so 'edits that only reorder map keys' are outside what the contract can see; the PodTemplate reconciler and the hash stamped on pods (pod creation, C10) are not under contract yet; histories (A to B to A) are covered only through the per-reconcile rule 'no create while a matching replica set is listed'. Assumes List returns the matching objects and that objects filled by Get/List do not share memory with older objects. " + TECH_NOTE,
+         "DESIGN.md 5 C13"),
  "C12": ("Frame contracts over the ghost API call log: every List issued by getPodList, getOldDaemonsetPodList and ManageDeployment (canary-label clean-up) carries a namespace restriction equal to the ExtendedDaemonSet's / replica set's namespace, on every path; cleanupReplicaSet only deletes listed replica sets. The unscoped lists were a genuine defect (demonstrated on the real code, fixed in five places).",
          "The two list sites in the ExtendedDaemonSet reconciler (replica-set list in Reconcile, pod list in selectNodes) are fixed in the code but not yet under contract; PodTemplate and create paths are not yet covered. Assumes List returns only objects matching its options. " + TECH_NOTE,
          "DESIGN.md 5 C12"),
@@ -40,6 +46,12 @@ CLAIMED = {
  "C16": ("Contract proofs: every Default* function keeps user-set values, fills the documented defaults, is idempotent and makes the IsDefaulted* recognisers true (full functional postconditions incl. frame); ValidateExtendedDaemonSetSpec rejects the three documented cases; and a safety sweep proves absence of nil dereference, index out of range, division by zero, nil-map write and failed type assertion in every function under contract (each from its stated precondition).",
          "The sweep covers the functions under contract listed in the evidence, not the whole repository; reconcilers' glue code is not yet under contract. Fuzzing of the serialized spec is a different technique and not claimed; the contracts quantify over every decoded value instead. " + TECH_NOTE,
          "DESIGN.md 5 C16"),
+ "C19": ("Contract proofs of the five kubectl-eds run() methods over the ghost API call log with a snapshot of each object as sent: each command first Gets exactly the named object, then issues at most one write (a merge Patch of the ExtendedDaemonSet; for canary fail a second Get of the canary replica set and one status Update of it); the write is refused unless the precondition holds on the fetched object (active canary for canary pause/unpause/validate/fail, no canary for rolling-update pause and rollout freeze, not already in the requested state); the object sent differs from the object fetched only in the documented annotation(s) (every other annotation key, all labels, every scalar of spec and status and the nil-ness/length of their references are proved equal) or, for fail, in exactly one appended Canary-Failed=True condition; validate records the replica set that is the canary at that moment. Controller side: IsCanaryDeploymentValid holds only for the named replica set, a valid annotation promotes, pause/fail are never promoted by time, manageStatus reports 'Canary Paused' / 'Canary' / 'Canary Failed' accordingly.",
+         "Command sequences followed by reconciles are covered only through the per-call contracts on both sides (each command for every fetched state, each reconcile for every annotation combination), not as histories. client.MergeFrom/Patch semantics (only the difference is sent) are assumed; cobra wiring (complete/validate) is not under contract. " + TECH_NOTE,
+         "DESIGN.md 5 C19"),
+ "C20": ("Contract proofs of the metric generators on the real function literals (addressed by metric name, not by position): each eds_status_* / ers_status_* generator returns exactly one series whose value is the named status field of the object passed (integers embedded exactly in the reals; 1/0 for the documented boolean conditions) labelled with that object's namespace and name; BuildInfoLabels returns as many keys as values as labels and pairs, at every index, the sanitised key of some label with the value of that same label (loop invariants; sort.Strings under an assumed permutation contract); the eds_labels / ers_labels generators carry that pairing through to the exported series. The pairing was a genuine defect (values were looked up under the sanitised key), demonstrated on the real code and fixed.",
+         "sanitizeLabelName is an uninterpreted function (the regular expression is not modelled), so 'the result is a legal Prometheus name' and collisions after sanitising are not decided; that every label is exported (surjectivity of the permutation) follows from the length clause only informally. float64 is modelled as the reals (exact for the 32-bit counters used). " + TECH_NOTE,
+         "DESIGN.md 5 C20"),
 }
 
 NOT_APPLICABLE = {
